@@ -395,11 +395,14 @@ func suiteGen(h *H) {
 	mt := []int64{oldT, oldT + 1, oldT - 1, 0, -1, -86400 * 365, 2147483647, -2147483648, 1600000000}
 	// (1) decision table of the update rule (C12), exhaustive: existing regular file x
 	//     {same/different size} x {mtime equal, +-1, far} x {content equal/different} x option sets x -t
-	for _, opts := range []string{"", "t", "c", "tc", "I", "tI", "cI", "tcI", "n", "nt", "nc", "nI", "p", "pt"} {
+	for _, opts := range []string{"", "t", "c", "tc", "I", "tI", "cI", "tcI", "n", "nt", "nc", "nI", "p", "pt", "np", "npt", "ntc", "nptc", "nptcog", "ptc", "ptcog"} {
 		for _, dsize := range []int64{100, 101, 0} {
 			for _, dm := range []int64{0, 1, -1, 100000} {
 				for _, same := range []bool{true, false} {
 					e := gEntry{kind: 'f', perm: 0o644, size: 100, mtime: oldT, uid: euid, gid: egid}
+					if root && strings.Contains(opts, "o") {
+						e.uid, e.gid = 1000, 1000
+					}
 					d := gNode{present: true, kind: 'f', perm: 0o604, size: dsize, mtime: oldT + dm, uid: euid, gid: egid}
 					dv := byte(0)
 					if !same {
